@@ -28,6 +28,21 @@ check('C09', 'exploration',
       "Trusts encoding/json's data model for canonical trees and the reference codec written from the protocol text; default stdjson serializer only.",
       "reference-model monitor (independent codec) + snapshot comparison over seeded generated inputs", "DESIGN.md §3 C09")
 
+check('C10', 'exploration',
+      "Part 1: every first frame up to length 4 (quick) / 6 (thorough) over a 16-symbol protocol alphabet plus continuation frames, grammar-aware mutations "
+      "(placeholder numbers, attachment counts, truncation at every byte, seeded byte edits) is fed to the real Parser.Add and every finished packet is decoded "
+      "against 9 handler-signature families under recover() and a progress watchdog. Part 2: the hostile sequences are sent by a raw protocol peer to a real server "
+      "in a child process; monitors: child exit status, canary round trip, and 'reported' (connection closed or error handler invoked) for sequences the parser rejects.",
+      "Panics are visible through recover() in part 1 and as child death in part 2; the Go-client mirror of part 2 is covered only in-process (a parser panic there is process-fatal by construction).",
+      "exhaustive small-input enumeration + grammar mutation under recover/watchdog monitors; child-process canary", "DESIGN.md §3 C10")
+
+check('C19', 'exploration',
+      "Forced schedules through hooks H1/H2: the consumer is parked exactly between its emptiness check and its wait while producers/close/reset run; every placement of "
+      "1..3 producers x second consumer x closer is executed on the real pollQueue/packetQueue (conservation, contiguity, no consumer blocked with a non-empty queue at "
+      "quiescence, close hand-shake). Plus unforced stress and an end-to-end latency monitor over real long-polling with the window widened by a sleep hook.",
+      "Relies on the hook call sites staying between check and wait; 'stranded' is observed 250 ms after logical quiescence while the consumer's own timeout is 1 h.",
+      "hook-gated forced-schedule enumeration + conservation/latency monitors", "DESIGN.md §3 C19")
+
 for pid in ['C01','C02','C03','C04','C05','C06','C07','C08','C10','C11','C12','C13','C14','C15','C16','C17','C18','C19']:
     if pid not in P:
         na(pid, "check not built yet in this round (planned, see DESIGN.md §3); not claimed until its monitor runs clean on the unchanged tree")
